@@ -7,11 +7,13 @@ from .c19 import strip_inst
 def spec(tier, seed):
     q = tier == "quick"
     inst = []
-    for (L, st, ow) in ([(5, 1, True), (5, 2, False), (4, 3, False)] if q else [(L, st, ow) for L in (4, 6) for st in (0, 1, 2, 3) for ow in (False, True)]):
+    for (L, st, ow) in ([(4, 1, True), (4, 2, False), (3, 3, False)] if q else [(L, st, ow) for L in (3, 4, 5) for st in (0, 1, 2, 3) for ow in (False, True)]):
         inst.append(strip_inst("c16", L, st, ow, "C16 strip drops exactly N leading components of both names"))
     return {
         "instances": inst,
-        "mir_vcs": [{"name": "choose_filename_to_patch: old if it exists (memory, else disk), else new; never neither", "function": "choose_filename_to_patch", "target": "bin",
+        "mir_vcs": [{"name": "read_series_file: strip is N for -pN and 1 otherwise; no -R without the option", "function": "read_series_file closures", "target": "bin",
+                     "run": lambda f, v, w: _mir.vc_series_defaults(f, v, w)},
+                    {"name": "choose_filename_to_patch: old if it exists (memory, else disk), else new; never neither", "function": "choose_filename_to_patch", "target": "bin",
                      "run": lambda f, v, w: _mir.vc_choose_filename(f, v, w)},
                     {"name": "apply_one_file_patch: direction follows the series entry's -R", "function": "apply_one_file_patch", "target": "bin",
                      "run": lambda f, v, w: _mir.vc_direction_from_series(f, v, w)}],
